@@ -110,3 +110,44 @@ def PyNum.val : PyNum K → K
   | .num x => x
   | _ => 0
 end ML
+
+/-! ## implementation layer of the accuracy strategy (base_metric.py `calibrate_threshold`, after the
+tie repair): sort by distance, cumulative counts, mask of realisable positions, first arg-max -/
+namespace ML
+variable {K : Type} [Scalar K]
+
+/-- validation pairs sorted by distance, ascending (the code sorts scores = −distance descending) -/
+def sortByDist (l : List (K × Bool)) : List (K × Bool) := l.mergeSort fun a b => decide (a.1 ≤ b.1)
+
+/-- `cum_tp[i] + cum_tn[i]`: positives among the first `i` (accepted) + negatives among the rest -/
+def cumCorrect (sorted : List (K × Bool)) (i : Nat) : Nat :=
+  ((sorted.take i).filter (·.2)).length + ((sorted.drop i).filter (!·.2)).length
+
+/-- position `i` is a realisable cut-off: not between two equal distances -/
+def realisablePos (sorted : List (K × Bool)) (i : Nat) : Bool :=
+  i == 0 || i == sorted.length ||
+    !(decide ((sorted.getD (i - 1) (0, true)).1 ≤ (sorted.getD i (0, true)).1) &&
+      decide ((sorted.getD i (0, true)).1 ≤ (sorted.getD (i - 1) (0, true)).1))
+
+/-- threshold stored for position `i`: reject-all for 0, else the `i`-th smallest distance -/
+def thrAtPos (sorted : List (K × Bool)) (i : Nat) : K :=
+  if i = 0 then rejectAll (sorted.map (·.1)) else (sorted.getD (i - 1) (0, true)).1
+
+/-- first arg-max of `f` over `0..n` restricted to positions satisfying `ok` -/
+def argmaxPos (f : Nat → Nat) (ok : Nat → Bool) : Nat → Option Nat
+  | 0 => if ok 0 then some 0 else none
+  | n+1 =>
+    match argmaxPos f ok n with
+    | none => if ok (n+1) then some (n+1) else none
+    | some b => if ok (n+1) && decide (f b < f (n+1)) then some (n+1) else some b
+
+/-- the code's accuracy calibration -/
+def calibrateAccCode (l : List (K × Bool)) : Option K :=
+  let s := sortByDist l
+  (argmaxPos (cumCorrect s) (realisablePos s) s.length).map (thrAtPos s)
+
+/-- number of correctly classified pairs when predicting with threshold `t` -/
+def correctCount (l : List (K × Bool)) (t : K) : Nat :=
+  (l.filter fun p => decide (p.1 ≤ t) == p.2).length
+
+end ML
